@@ -29,6 +29,14 @@ Round 3 (same level as (B): observation on the real objects):
     of the objects passed to the constructor" evaluated on copies / results made in the default configuration.
 (D) `lookalike_family`: mutable option + transition tables / sets in dict / set subclasses (defaultdict,
     OrderedDict, __missing__), reads of missing rows / symbols, definition compared with the one as built.
+
+Round 4:
+(E) `methods_family` / `method_case` (harness/introspect_ops.py): every public instance method that dir() finds
+    on each class of the code under test — inherited ones included, arguments synthesised from the parameter
+    names — called on a fresh automaton under both settings of the option; afterwards the WHOLE definition
+    (input_parameters, every constructor parameter read as an attribute, definition attributes kept in the
+    instance __dict__ such as GNFA.final_states) is what it was.  Methods the hand-written tables do not list
+    also join the operations of the histories.
 """
 from __future__ import annotations
 
@@ -64,7 +72,12 @@ RULE = ("(A) cases = Python values for freeze_value (all values of nesting depth
         "copies made under m1=False in (A) are judged the same way; (D) under the option, definitions handed over in "
         "dict / set SUBCLASSES (defaultdict outer+rows / outer only, OrderedDict, dict subclasses whose __missing__ "
         "inserts / answers a default, a set subclass): every operation, query and run — words with symbols missing "
-        "from rows, states without rows, a symbol outside the alphabet — must leave the definition as built")
+        "from rows, states without rows, a symbol outside the alphabet — must leave the definition as built. Round 4: "
+        "(E) (class × public instance method DISCOVERED with dir() on the class under test, inherited ones included × "
+        "option setting × fresh definition, optional parameters filled at random): the operand's whole definition — "
+        "input_parameters, constructor parameters read as attributes, definition attributes kept in the instance "
+        "__dict__ (GNFA.final_states) — compared after the call; discovered methods outside the hand-written operation "
+        "tables are history operations too")
 ASSUMPTIONS = [
     "part (B) is MONITORED at level 'other': absence of operand mutation and of harmful aliasing is observed on sampled histories, not proved",
     "freeze_value theorems assume `supported`: every dict key and every set/frozenset element is hashable (on the model: contains no dict/set/list). This excludes nothing that exists: Python raises TypeError (unhashable type) when such a dict/set/frozenset is built. Lists inside tuples ARE covered (fix 3900daf)",
@@ -74,6 +87,9 @@ ASSUMPTIONS = [
     "show_diagram (DFA / NFA / GNFA / DPDA / NPDA) cannot be exercised here: pygraphviz / coloraide are not installed, the method raises ImportError before touching the automaton; that it leaves its operand unchanged is therefore NOT observed by the histories",
     "atoms of a definition (state names, symbols) are str / int / float / None / bytes / tuples / frozensets of these, as "
     "the generators produce them: 'immutable form' of a stored value is judged by type (atoms, tuple, frozenset, frozendict)",
+    "discovered methods are called generically when their required parameters are among input_str / other / k (all public "
+    "instance methods of the pinned code are; one that is not is counted in the evidence as not_callable_generically); "
+    "read_input / accepts_input of PDA / TM classes only when the bounded stepwise run ends",
     "an exception inside a history that is not a documented refusal (AutomatonException subclasses; NotImplementedError of GNFA readers; ValueError of DFA.random_word) is reported as a failure",
 ]
 EXPLANATION = ("Theorems C18_* prove for the model: freeze (tuples entered, fix 3900daf) leaves no mutable container in any value "
@@ -674,71 +690,12 @@ def results_family(ctx: Ctx, rng, count: int):
 
 
 # ------------------------------------------------------------------ dict / set subclasses and look-alikes
-class InsertingDict(dict):
-    """A dict subclass whose __missing__ inserts a default (what collections.defaultdict does)."""
-    factory = dict
-
-    def __missing__(self, key):
-        v = self[key] = self.factory()
-        return v
-
-
-class InsertingSetDict(InsertingDict):
-    factory = set
-
-
-class InsertingListDict(InsertingDict):
-    factory = list
-
-
-class DefaultingDict(dict):
-    """A dict subclass whose __missing__ answers with a default WITHOUT inserting it."""
-
-    def __missing__(self, key):
-        return frozenset()
-
-
-class SetSub(set):
-    pass
-
+# the container flavours live in harness/lookalike.py (shared with ops/C19.py; a regular module so that
+# automata holding them can be pickled)
+from harness.lookalike import (FLAVOURS, INNER_FACTORY, DefaultingDict, InsertingDict,  # noqa: E402,F401
+                               InsertingListDict, InsertingSetDict, SetSub, flavoured)
 
 KEY_ASNTM_EAFP = "C18:as-ntm-read-inserts-into-defaultdict-table"
-INNER_FACTORY = {"NFA": set, "NTM": set, "MNTM": list, "DPDA": dict, "NPDA": dict}
-FLAVOURS = ("defaultdict", "defaultdict-outer", "OrderedDict", "missing-inserts", "missing-defaults", "set-subclass")
-
-
-def flavoured(cls: str, kw: Dict[str, Any], flavour: str) -> Dict[str, Any]:
-    """The definition `kw` with its transition table (and sets) rebuilt in dict / set SUBCLASSES a user may
-    well pass under allow_mutable_automata=True: collections.defaultdict (outer and rows — the usual way such
-    tables are built), OrderedDict, dict subclasses with __missing__ (inserting / answering a default), a set
-    subclass.  Same content, other container classes."""
-    import collections
-    import functools
-    kw = G._dc(kw)
-    t = kw["transitions"]
-    inner = INNER_FACTORY.get(cls)
-    if flavour == "defaultdict":
-        mk_row = (lambda row: collections.defaultdict(inner, row)) if inner else dict
-        row_factory = functools.partial(collections.defaultdict, inner) if inner else dict
-        kw["transitions"] = collections.defaultdict(row_factory, {q: mk_row(row) for q, row in t.items()})
-    elif flavour == "defaultdict-outer":
-        kw["transitions"] = collections.defaultdict(dict, t)
-    elif flavour == "OrderedDict":
-        kw["transitions"] = collections.OrderedDict((q, collections.OrderedDict(row)) for q, row in t.items())
-    elif flavour == "missing-inserts":
-        rowcls = {set: InsertingSetDict, list: InsertingListDict, dict: InsertingDict}.get(inner)
-        kw["transitions"] = InsertingDict({q: (rowcls(row) if rowcls else dict(row)) for q, row in t.items()})
-    elif flavour == "missing-defaults":
-        kw["transitions"] = DefaultingDict({q: (DefaultingDict(row) if inner in (set, list) else dict(row))
-                                            for q, row in t.items()})
-    elif flavour == "set-subclass":
-        for k in G.SET_PARAMS:
-            if k in kw:
-                kw[k] = SetSub(kw[k])
-        if cls in ("NFA", "NTM"):
-            kw["transitions"] = {q: {a: (SetSub(ts) if isinstance(ts, (set, frozenset)) else ts) for a, ts in row.items()}
-                                 for q, row in t.items()}
-    return kw
 
 
 def table_shape(t) -> Any:
@@ -827,6 +784,116 @@ def lookalike_family(ctx: Ctx, rng, count: int):
                 kw = G.rand_tm_def(rng, "MNTM", list_results=True)
             kw2 = G.rand_def(rng, cls, alphabet=sorted(kw["input_symbols"])) if M.binary_ops(cls) else None
             lookalike_case(ctx, cls, kw, kw2, rng.choice(FLAVOURS), rng, "lookalike")
+
+
+# ------------------------------------------------------------------ every public method, discovered
+def whole_definition(obj):
+    """What `obj` IS: input_parameters, every constructor parameter read as an attribute, and the definition
+    attributes kept in __dict__ outside the parameters (GNFA.final_states)."""
+    return (G.snapshot(obj.input_parameters), G.norm(definition(obj)), extra_definition(obj))
+
+
+def describe_change(before, after) -> str:
+    out = []
+    if before[0] != after[0]:
+        out.append("input_parameters changed")
+    if before[1] != after[1]:
+        out.append("a constructor parameter read as an attribute changed")
+    if before[2] != after[2]:
+        b, a = _unnorm_map(before[2]), _unnorm_map(after[2])
+        lost, added = sorted(set(b) - set(a)), sorted(set(a) - set(b))
+        changed = sorted(k for k in b if k in a and b[k] != a[k])
+        out.append("definition attributes kept in the instance __dict__ outside the constructor parameters: "
+                   + "; ".join(x for x in (f"lost {lost}" if lost else "", f"changed {changed}" if changed else "",
+                                           f"new {added}" if added else "") if x))
+    return "; ".join(out)
+
+
+def _unnorm_map(n) -> Dict[str, Any]:
+    """{key: normed value} of a G.norm'ed dict with str keys."""
+    return dict(n[1]) if isinstance(n, tuple) and n and n[0] == "map" else {}
+
+
+@guarded
+def method_case(ctx: Ctx, cls: str, kw, kw2, mutable: bool, method: str, a: Dict[str, Any], origin: str,
+                flavour: Optional[str] = None) -> None:
+    """One public method — found by introspection of the class under test, inherited ones included — called
+    on a freshly built automaton: afterwards the whole definition of the operand (and of the second operand)
+    is what it was.  Exceptions of the call are not this property's question; the operand is compared all
+    the same."""
+    from harness import introspect_ops as I
+    klass = G.get_class(cls)
+    sig = dict(I.discovered(klass)).get(method)
+    op = I.make_op(cls, method, sig) if sig is not None else None
+    if op is None:
+        return
+    name, ar, fn = op
+    with M.options(True, mutable):
+        try:
+            x = klass(**(flavoured(cls, kw, flavour) if flavour else G._dc(kw)))
+            y = klass(**G._dc(kw2)) if (ar == 2 and kw2 is not None) else None
+        except Exception as e:  # noqa: BLE001
+            ctx.note(f"method_case: {cls} rejected a generated definition: {type(e).__name__}"[:200])
+            return
+    if ar == 2 and y is None:
+        return
+    before, before2 = whole_definition(x), (whole_definition(y) if y is not None else None)
+    with M.options(a.get("sv", True), mutable):
+        try:
+            fn(x, a) if ar == 1 else fn(x, y, a)
+            out = "ok"
+        except RecursionError:
+            raise
+        except Exception as e:  # noqa: BLE001
+            out = type(e).__name__
+    ctx.stat(f"monitored(other):method:{'mutable' if mutable else 'default'}:{name}:{'ok' if out == 'ok' else 'raised'}")
+    rp = dict(kind="method", cls=cls, kwargs=repr(kw), rhs=repr(kw2) if ar == 2 else None, mutable=mutable,
+              method=method, args=a, flavour=flavour)
+    ok = True
+    for who, obj, want in (("operand", x, before), ("second operand", y, before2)):
+        if obj is None:
+            continue
+        try:
+            now = whole_definition(obj)
+        except Exception as e:  # noqa: BLE001 - e.g. an attribute of the definition is gone
+            ok = False
+            ctx.prop_fail(f"after the public call {name}() ({out}) the definition of its {who} can no longer be read: "
+                          f"{type(e).__name__}: {str(e)[:100]} (allow_mutable_automata={mutable})", rp, None)
+            continue
+        if now != want:
+            ok = False
+            ctx.prop_fail(f"the public call {name}() ({out}) changed its {who} (allow_mutable_automata={mutable}"
+                          + (f", definition handed over as {flavour}" if flavour else "") + f"): {describe_change(want, now)}",
+                          rp, None)
+    ctx.case(("method", cls, method, mutable, flavour, E.enc_def(cls, kw)) if ok and C19_nontrivial(kw) else None)
+
+
+def methods_family(ctx: Ctx, rng, count: int):
+    """(class × public method discovered on the class × option setting), `count` fresh definitions each;
+    optional parameters filled at random from the argument pack."""
+    from harness import introspect_ops as I
+    for cls in G.CLASSES:
+        ops, skipped = I.discovered_ops(cls)
+        for n in skipped:
+            ctx.stat(f"monitored(other):method:not_callable_generically:{cls}.{n}")
+        ctx.stat(f"monitored(other):method:discovered:{cls}", len(ops))
+        for name, ar, _ in ops:
+            method = name.split(".", 1)[1]
+            opt = I.optional_names(cls, method)
+            for i in range(count):
+                kw = G.rand_def(rng, cls)
+                if cls == "MNTM" and rng.random() < 0.5:
+                    kw = G.rand_tm_def(rng, "MNTM", list_results=True)
+                kw2 = G.rand_def(rng, cls, alphabet=sorted(kw["input_symbols"])) if ar == 2 else None
+                for mutable in (False, True):
+                    a = M.arg_pack(rng, kw["input_symbols"])
+                    a["fill"] = [p for p in opt if rng.random() < 0.5]
+                    a["sv"] = rng.random() < 0.7
+                    flavour = rng.choice(FLAVOURS) if (mutable and rng.random() < 0.3) else None
+                    method_case(ctx, cls, kw, kw2, mutable, method, a, "methods", flavour=flavour)
+    ctx.exhaustive("every public instance method that dir() finds on each of the 8 classes of the code under test "
+                   "(inherited ones included; those whose required parameters are input_str / other / k or none) × "
+                   "both settings of allow_mutable_automata: the operand's whole definition compared after the call")
 
 
 # ------------------------------------------------------------------ (B) default mode probes
@@ -975,7 +1042,20 @@ ROUNDTRIP_SUFFIXES = (".copy", ".pickle.loads(pickle.dumps)", ".copy.copy", ".co
 # the ones misc_common.is_documented knows); an exception outside this list inside a history is
 # reported as a failure: an accepted automaton passed to a public operation must not crash.
 def documented_refusal(name: str, e: BaseException) -> bool:
-    return M.is_documented(name, e)
+    try:
+        return M.is_documented(name, e)
+    except Exception:  # noqa: BLE001 - a method the documentation table does not know (found by introspection)
+        return False
+
+
+_DISCOVERED_NEW: Dict[str, list] = {}
+
+
+def _discovered_new(cls: str):
+    if cls not in _DISCOVERED_NEW:
+        from harness import introspect_ops as I
+        _DISCOVERED_NEW[cls] = I.discovered_ops(cls, only_new=True)[0]
+    return _DISCOVERED_NEW[cls]
 
 
 @guarded
@@ -1023,6 +1103,9 @@ def history(ctx: Ctx, rng, mutable: bool, steps: int, classes: List[str], origin
         m = rng.choice(pool)
         ops1 = M.unary_ops(m.cls) + roundtrip_ops(m.cls)
         ops2 = M.binary_ops(m.cls)
+        # public methods found by introspection that the hand-written tables do not cover (inherited ones too)
+        for dname, dar, dfn in _discovered_new(m.cls):
+            (ops1 if dar == 1 else ops2).append((dname, dfn))
         a = M.arg_pack(rng, m.obj.input_symbols)
         if ops2 and rng.random() < 0.4:
             name, fn = rng.choice(ops2)
@@ -1047,7 +1130,10 @@ def history(ctx: Ctx, rng, mutable: bool, steps: int, classes: List[str], origin
         ctx.stat(f"monitored(other):history:{'mutable' if mutable else 'default'}:{name}")
         rp = dict(kind="history", mutable=mutable, pool=build, trace=[(n, i, dict(ar)) for n, i, ar in trace][-12:],
                   step=step, classes=classes)
-        if res[0] == "err" and not documented_refusal(name, res[1]):
+        if res[0] == "err" and isinstance(res[1], ImportError) and name.endswith("show_diagram"):
+            # pygraphviz / coloraide are not installed here: the method raises before touching the automaton
+            ctx.stat("monitored(other):history:show_diagram_not_installed")
+        elif res[0] == "err" and not documented_refusal(name, res[1]):
             # an operation on accepted automata raised something its documentation does not
             # announce.  That is not a failure of THIS property (C18 is about definitions never
             # changing; whether accepted automata are usable is C19's question, which runs the same
@@ -1205,6 +1291,9 @@ def run(ctx: Ctx):
     # ---- mutable option + dict / set subclasses and look-alikes as containers
     lookalike_family(ctx, rng, ctx.budget(60, 800))
 
+    # ---- every public method the classes have (introspection), definition compared after the call
+    methods_family(ctx, rng, ctx.budget(3, 30))
+
     # ---- (B) monitored histories (level "other")
     all_classes = list(G.CLASSES)
     for _ in range(ctx.budget(250, 2500)):
@@ -1250,6 +1339,10 @@ def replay(ctx: Ctx, path: str) -> int:
         kw = eval(rp["kwargs"], _env())
         kw2 = eval(rp["rhs"], _env()) if rp.get("rhs") else None
         lookalike_case(ctx, rp["cls"], kw, kw2, rp["flavour"], rng, "replay", only_op=rp["op"], args_pack=rp["args"])
+    elif kind == "method":
+        kw = eval(rp["kwargs"], _env())
+        kw2 = eval(rp["rhs"], _env()) if rp.get("rhs") else None
+        method_case(ctx, rp["cls"], kw, kw2, rp["mutable"], rp["method"], rp["args"], "replay", flavour=rp.get("flavour"))
     elif kind == "history":
         # histories are regenerated from the recorded classes with the run's PRNG; the recorded
         # pool / trace document the failing step
